@@ -171,6 +171,8 @@ type Machine struct {
 	printed   []string
 	observed  []rawObs
 	pending   []pendingOb
+	builders  map[*value]value
+	lazyDev   int
 	cov       map[string]int
 	nonneg    map[*smt.Term]bool
 	chooseVals map[string]int
@@ -821,7 +823,7 @@ func (e *Engine) runPath(fn *ssa.Function, it workItem, ws *workerSolvers) (pr *
 	m := &Machine{
 		eng: e, pool: smt.NewPool(), ws: ws, sess: ws.lia, lia: lia,
 		globals: map[*ssa.Global]*value{}, prefix: append([]int{}, it.prefix...), model: it.model,
-		cov: map[string]int{}, known: map[string]*smt.Term{}, nonneg: map[*smt.Term]bool{}, res: pr, harness: fn.Name(), onceDone: map[*value]bool{},
+		cov: map[string]int{}, builders: map[*value]value{}, known: map[string]*smt.Term{}, nonneg: map[*smt.Term]bool{}, res: pr, harness: fn.Name(), onceDone: map[*value]bool{},
 		declared: map[string]bool{}, pcSet: map[*smt.Term]bool{}, chooseVals: map[string]int{},
 	}
 	if m.model == nil {
@@ -906,8 +908,11 @@ func (e *Engine) runPath(fn *ssa.Function, it workItem, ws *workerSolvers) (pr *
 			}
 		case engineError:
 			pr.Status = "engine-error"
-			pos, _ := m.site()
-			pr.Detail = fmt.Sprintf("%v @ %s\n%s", r.v, pos, trimStack(r.stack))
+			pos, st := m.site()
+			if len(st) > 4 {
+				st = st[:4]
+			}
+			pr.Detail = fmt.Sprintf("%v @ %s in %v\n%s", r.v, pos, st, trimStack(r.stack))
 		default:
 			pr.Status = "engine-error"
 			pos, _ := m.site()
